@@ -64,7 +64,7 @@ def build_scheme(plan: dict):
     invalid = set(plan.get("invalid", []))
     kw = dict(method=s.get("method", "TrustRegionReflection"), ndatasets=s.get("ndatasets", 1),
               residual_function=s.get("residual", "variable_projection"), link_clp=s.get("link"), max_nfev=s.get("max_nfev"),
-              tol=s.get("tol", 1e-3), start=tuple(s.get("start", (0.55, 1.1))))
+              tol=s.get("tol", 1e-3), start=tuple(s.get("start", (0.55, 1.1))), nonneg=bool(s.get("nonneg", False)))
     if "unknown_method" in invalid:
         kw["method"] = "SimulatedAnnealing"
     if "unknown_residual_function" in invalid:
